@@ -3,6 +3,7 @@ from ..core import rng_for, rand_digits, M64, ndig
 from ..arith import cmd_bb, STYPES, UTYPES, ITYPES
 from ..oracles import cmd_sh, cmd_bit, cmd_setbit, cmd_bitq, cmd_not, trailing_zeros
 
+THOROUGH_SEEDS = 20   # the thorough tier repeats its staged workload over this many derived seeds
 RULE = ('& | ^ over the nine sign combinations x digit-length pairs x magnitude families that make the twos-complement '
         'negate-carries run through whole digits (+-2^(64k), 2^(64k)-1, trailing zero/one runs, results needing an extra '
         'top digit), all big-by-big forms; ! on every family; << and >> by every amount 0..130, k*64-1/k*64/k*64+1, '
